@@ -157,11 +157,16 @@ def run(ctx):
             ctx.count("skipped_alias")       # the property is about schemas without type aliases or custom types
             continue
         nested = len(rebuild.subschemas(s)) > 1
-        ctx.case(repr(s), nested)
+        try:
+            text = repr(s)
+        except Exception as e:  # noqa: BLE001
+            ctx.violation("repr(schema) raised %s" % type(e).__name__, exception=repr(e)[:300],
+                          schema_class=type(s).__name__, declared_props=sorted(str(k) for k in s.props), py_schema=None)
+            continue
+        ctx.case(text, nested)
         if has_nonfinite(s):
             ctx.count("skipped_nonfinite_float")   # K6 family: `inf`/`nan` literals are not evaluable
             continue
-        text = repr(s)
         info_d = dict(schema_text=text, py_schema=s)
         if text != represent(s) or text != repr(rebuild.clone(s)):
             ctx.violation("repr is not deterministic (repr / represent / repr of an independent rebuild differ)", **info_d)
